@@ -363,3 +363,73 @@ fn c08_frame_foreign_handshake_closes_silently() {
 fn c06_frame_end_of_stream_ends_task() {
     frame_step(4);
 }
+
+// ---------------------------------------------------------------------------------------------
+// handle_piece along the paths that end before the first send: a block that leaves other
+// blocks outstanding (nothing left to request), and a last block whose hash does not match.
+
+fn piece_rig(outstanding_first: bool) -> Rig {
+    let mut rig = mk_rig(4, None);
+    let mut requested = VecDeque::with_capacity(4);
+    if outstanding_first {
+        requested.push_back((0usize, 2usize));
+    }
+    requested.push_back((2usize, 2usize));
+    rig.h.piece_rx = Some(PieceRx {
+        piece_index: 1,
+        hash: kani::any(),
+        buff: vec![0; 4],
+        requested,
+        left: VecDeque::with_capacity(4),
+    });
+    rig
+}
+
+// @prop C10 C01
+// @tier off
+// @fn PeerHandler::handle_piece, PeerHandler::is_piece_requested, PeerHandler::send_request (nothing left)
+// @bound a 4-byte piece with two outstanding 2-byte requests (0,2) and (2,2), nothing unrequested; the peer answers the SECOND request first with any 2 bytes
+// @outside real block sizes (16 KiB), more than two outstanding blocks, the paths that go on to send a Request or to store the piece (nested coroutines, DESIGN 3.8)
+// @desc an accepted block removes exactly its own request from the outstanding list (answers may come in any order), is copied to its offset, and does not complete the piece while another block is outstanding
+#[kani::proof]
+#[kani::unwind(6)]
+fn c10_block_out_of_order_keeps_other_request() {
+    let mut rig = piece_rig(true);
+    let data: [u8; 2] = kani::any();
+    let piece = Piece::new(1, 2, data.to_vec());
+    let res = run_ready(rig.h.handle_piece(&piece)).expect("never blocks: nothing to send");
+    assert!(matches!(res, Ok(true)), "the connection goes on");
+    let rx = rig.h.piece_rx.as_ref().expect("piece still in progress: one block is outstanding");
+    assert!(rx.requested.len() == 1 && rx.requested[0] == (0, 2), "only the answered request is removed");
+    assert!(rx.buff[2] == data[0] && rx.buff[3] == data[1] && rx.buff[0] == 0 && rx.buff[1] == 0, "block stored at its offset");
+    assert!(rig.h.stats.downloaded[0] == 2);
+    assert!(rig.peer_rx.queued() == 0, "no PieceDone while a block is outstanding");
+    kani::cover!(data[0] == 0xff, "arbitrary payload");
+    std::mem::forget(res);
+    std::mem::forget(rig);
+}
+
+// @prop C01
+// @tier off
+// @fn PeerHandler::handle_piece, PeerHandler::verify_piece_hash
+// @bound a 4-byte piece whose last outstanding block (2,2) arrives with any 2 bytes; expected hash concrete and different from every SHA-1 of the possible buffers' first byte pattern (hash = 20 zero bytes assumed unequal)
+// @assume the expected hash is the all-zero digest, which no 4-byte buffer of the form 00 00 xx yy hashes to (checked by the harness: the verify step must fail)
+// @desc when the assembled piece fails the hash, handle_piece returns an error (the connection ends), nothing is written to the piece store and no PieceDone reaches the manager
+#[kani::proof]
+#[kani::unwind(90)]
+fn c01_last_block_with_bad_hash_is_not_stored() {
+    let mut rig = piece_rig(false);
+    if let Some(rx) = rig.h.piece_rx.as_mut() {
+        rx.hash = [0u8; HASH_SIZE];
+    }
+    fs::reset();
+    let data: [u8; 2] = kani::any();
+    let piece = Piece::new(1, 2, data.to_vec());
+    let res = run_ready(rig.h.handle_piece(&piece)).expect("never blocks: fails before any await");
+    assert!(res.is_err(), "a piece that fails the hash ends the connection");
+    assert!(fs::store().write_log.len() == 0 && fs::store().files.len() == 0, "nothing is written");
+    assert!(rig.peer_rx.queued() == 0, "no PieceDone");
+    kani::cover!(true, "reached");
+    std::mem::forget(res);
+    std::mem::forget(rig);
+}
